@@ -22,7 +22,8 @@ EXTENDS ParserFns, FiniteSets
 
 CONSTANTS G,         \* goroutine ids (1..n)
           Variant,   \* "ok" | "earlyput" | "notrunc"
-          Coarse,    \* TRUE: reads are grouped (first / up to the middle / rest), Return merged into Put
+          Coarse,    \* TRUE: reads are grouped, Return merged into Put (schedule granularity)
+          ReadGroups,\* with Coarse: 3 = first read / up to the middle / rest; 1 = all reads in one step
           DetPool    \* TRUE: Get takes the lowest pooled buffer if any (schedule emission: the harness
                      \* cannot choose the buffer, so enumerating the choice would only duplicate schedules)
 
@@ -91,7 +92,7 @@ ReadOne(c) ==
        IN  [c EXCEPT !.st = s2, !.k = c.k + 1]
 Finished(c) == c.st.pc = "done" \/ c.k > c.n
 (* schedule granularity: groups end after the first read, after the middle one, at the end *)
-GroupEnd(c) == Finished(c) \/ c.k = 2 \/ c.k = ((c.n + 1) \div 2) + 1
+GroupEnd(c) == Finished(c) \/ (ReadGroups = 3 /\ (c.k = 2 \/ c.k = ((c.n + 1) \div 2) + 1))
 RECURSIVE ReadGroup(_)
 ReadGroup(c) == LET c2 == ReadOne(c) IN IF GroupEnd(c2) THEN c2 ELSE ReadGroup(c2)
 
